@@ -6,7 +6,8 @@ correspondence(ctx, prop)  Tie B: generated histories run on real Pony + SQLite 
                            A hit on an assertion site of the model (dirty sites >= 20, see Model/Session.v) is a disagreement too.
 search(ctx, deep, prop)    property oracle on the implementation alone (no model): identity / index checks (C11), both ends (C12),
                            committed uniqueness (C14), ... evaluated after every op of generated histories; failures are classified
-                           into finding keys  <check>@<op kind>:<result>  and shrunk.
+                           into finding keys  <check>@<op kind>:<ok|err>  (see key_of) and shrunk; only the first failing op of a
+                           history is reported (family_violations); histories come from stage 1 and stage 2 schemas.
 replay(ctx, data, prop)    re-run one stored (schema, ops) and report the failure with the stored key if it still occurs.
 """
 import collections, json, os
@@ -28,11 +29,11 @@ SEED_OFFSET = {'C09': 9, 'C10': 10, 'C11': 11, 'C12': 12, 'C14': 14}
 ASSERTION_SITE_MIN = 20
 
 
-def gen_histories(seeds, length=(10, 40), oracle=True, chunk=100, jobs=4, malformed=0.15):
+def gen_histories(seeds, length=(10, 40), oracle=True, chunk=100, jobs=4, malformed=0.15, stage=1):
     chunks = [seeds[i:i + chunk] for i in range(0, len(seeds), chunk)]
     def one(part):
         return vlib.run_impl('session_impl.py', {'mode': 'gen', 'seeds': part, 'length': list(length), 'oracle': oracle,
-                                                 'malformed': malformed}, timeout=1800)
+                                                 'malformed': malformed, 'stage': stage}, timeout=1800)
     with ThreadPoolExecutor(max_workers=jobs) as ex:
         outs = list(ex.map(one, chunks))
     hs = []
@@ -46,16 +47,25 @@ def run_fixed(cases, oracle=True):
 
 
 def key_of(h, v):
+    """Finding key: <check>@<op kind>:<ok|err> - which oracle failed, after which kind of operation, and whether that operation
+    raised.  The exception class is deliberately not part of the key (one missing undo shows up with several exception classes);
+    checks at dump points are keyed <check>@dump, reads that raise AssertionError c10-read-assertion@read:err."""
     i = v['op_index']
     op = h['ops'][i] if i < len(h['ops']) else ['final']
     r = h['results'][i] if i < len(h['results']) else ['ok']
-    return '%s@%s:%s' % (v['check'], op[0], ('err-' + r[1]) if r[0] == 'err' else 'ok')
+    if v['check'].startswith('c09-') or v['check'].startswith('c14-duplicate') or v['check'] == 'c14-failed-commit-changed-db': return v['check'] + '@dump'
+    if v['check'] == 'c10-read-assertion': return v['check'] + '@read:err'
+    return '%s@%s:%s' % (v['check'], op[0], 'err' if r[0] == 'err' else 'ok')
 
 
 def family_violations(h, prop):
-    """First violation per check of the property's family: [(key, violation)]."""
+    """The violations of the property's family at the FIRST op of the history at which any oracle (of any family) failed, one per
+    check: [(key, violation)].  Later failures of a history are consequences of the first divergence (a phantom object left by a failed
+    creation shows up in lookups, collections, the save queue ...) and are not reported, so that a finding key names a root cause."""
     out, seen = [], set()
+    first = min([v['op_index'] for v in h['oracle']] or [0])
     for v in h['oracle']:
+        if v['op_index'] != first: continue
         if not v['check'].startswith(FAMILIES[prop]): continue
         if v['check'] in seen: continue
         seen.add(v['check'])
@@ -147,9 +157,14 @@ def correspondence(ctx, prop, n_quick=300, n_thorough=20000):
 
 def search(ctx, deep, prop, n_quick=150, n_deep=6000):
     n = n_deep if deep else n_quick
+    # stage 1 (the modelled schema space) and stage 2 (adds many-to-many and one-to-one relationships; implementation-side oracles only)
     hs, _ = gen_histories(seeds_for(ctx, prop, n, 1), jobs=4)
+    hs2, _ = gen_histories(seeds_for(ctx, prop, n, 2), jobs=4, stage=2)
+    n_stage1 = len(hs)
+    hs = hs + hs2
     failures, seen, nontrivial = [], {}, set()
-    dist = {'histories': len(hs), 'violating_histories': 0, 'keys': collections.Counter(), 'ops': 0}
+    dist = {'histories': len(hs), 'stage1_histories': n_stage1, 'stage2_histories': len(hs) - n_stage1, 'violating_histories': 0,
+            'keys': collections.Counter(), 'ops': 0}
     for h in hs:
         dist['ops'] += len(h['ops'])
         if mutating_ok(h) >= 3: nontrivial.add(sf.canon([h['schema'], h['ops']]))
@@ -169,7 +184,7 @@ def search(ctx, deep, prop, n_quick=150, n_deep=6000):
             failures.append(Failure(key, '%s: %s (after op %s)' % (v['check'], v['detail'], json.dumps(v['op'])),
                                     {'schema': h['schema'], 'ops': ops, 'key': key}))
     dist['keys'] = dict(dist['keys'])
-    samples = [{'schema': sf.schema_shape(h['schema']), 'ops': h['ops'][:12]} for h in hs[:1]]
+    samples = [{'schema': sf.schema_shape(h['schema']), 'ops': h['ops'][:12]} for h in (hs[:1] + hs[n_stage1:n_stage1 + 1])]
     return Search(evaluations=dist['ops'], failures=failures, nontrivial=len(nontrivial), samples=samples, distribution=dist, exhaustive=False)
 
 
